@@ -110,6 +110,22 @@ func runC11(r *Report, p *Program) {
 			if derives(c.Value, func(v ssa.Value) bool { return isResultOf(v, 0, modPath+".DirectiveAction") }, flowOpts{}) {
 				n++
 				r.Check(!guardedByJustValidate(ex, in), "R3", "casket.executeDirectives/setup-independent-of-justValidate", in.Pos(), "every setup call a real start makes is also made by -validate")
+				// data dependence: how often the enclosing loops run, and what the call is given, must not be selected
+				// by justValidate either (e.g. ranging over a key list that validation shortens)
+				var deps []string
+				for _, hd := range enclosingHeaders(in.Block()) {
+					if hif, ok := lastInstr(hd).(*ssa.If); ok {
+						if what, dep := selectedByJustValidate(ex, hif.Cond); dep {
+							deps = append(deps, "trip count of the loop at "+h.p.Pos(hif.Pos())+" depends on "+what)
+						}
+					}
+				}
+				for _, a := range c.Args {
+					if what, dep := selectedByJustValidate(ex, a); dep {
+						deps = append(deps, "argument depends on "+what)
+					}
+				}
+				r.Check(len(deps) == 0, "R3", "casket.executeDirectives/setup-loops-independent-of-justValidate", in.Pos(), "the loops around the setup call run over the same server blocks, directives and keys whether validating or starting", deps...)
 			}
 		})
 		if n == 0 {
